@@ -1,6 +1,7 @@
 (* C10 - a table renders the same whatever wrapper created it or is wrapped
    around it.  Only statements; proofs in Proofs/WrapProofs.v. *)
 From Tab Require Import Model.Wrap Model.Csv Proofs.WrapProofs Model.WrapObj Proofs.WrapObjProofs.
+From Tab Require Import Model.WrapCb Proofs.WrapCbProofs Proofs.WrapObjR6Proofs.
 From Tab Require Model.Markdown Model.Json Model.Text Model.Decoration Model.Html.
 
 (* For every choice of renderer bodies (out / degraded), every start state and
@@ -120,3 +121,78 @@ Example c10_example_objects :
   orender outf (fun _ _ _ _ => Err) s 1 = Some (Ok [7%N; 1%N]) /\
   fresh_render (fun _ => 0) outf (fun _ _ _ _ => Err) s KText = Some (Ok [0%N; 1%N]).
 Proof. vm_compute. repeat split. Qed.
+
+(* ---- round 6: the application's own callbacks in the table's callback lists
+   (Model/WrapCb.v: the list walked entry by entry as invokePropertyCallbacks
+   walks it - an error is recorded and the walk carries on), and a wrapper
+   object's own option history. *)
+
+(* the model with observers refines Model/Wrap.v under erasure of the observers *)
+Theorem c10_observers_refine : forall (U E : Type) (ops : list (xop U E)) (s : xstate U E),
+  erase_state (xrun s ops) = run (erase_state s) (erase ops).
+Proof. exact refines. Qed.
+Print Assumptions c10_observers_refine.
+
+(* a render through a wrapper of kind k is format k's output for the current
+   view wherever the application's observers were registered relative to the
+   wrappers' measuring callbacks and whatever they report *)
+Theorem c10_render_is_out_with_observers : forall (U E : Type) out degraded (ops : list (xop U E)) (s : xstate U E) k,
+  wrapped k (erase ops) ->
+  xrender out degraded (xrun s ops) k = out k (x_view (xrun s ops)).
+Proof. exact x_render_is_out. Qed.
+Print Assumptions c10_render_is_out_with_observers.
+
+(* histories that differ only in observers (which, how many, registered when,
+   reporting or not) render identically *)
+Theorem c10_observers_invisible : forall (U E : Type) out degraded (ops1 ops2 : list (xop U E)) v u k,
+  erase ops1 = erase ops2 ->
+  xrender out degraded (xrun (xinit v u) ops1) k = xrender out degraded (xrun (xinit v u) ops2) k.
+Proof. exact observers_invisible. Qed.
+Print Assumptions c10_observers_invisible.
+
+(* every pass records every observer's report, in list order *)
+Theorem c10_pass_records_all : forall (U E : Type) (s : xstate U E),
+  x_errs (xinvoke s) = x_errs s ++ reports (x_view s) (x_cbs s).
+Proof. exact pass_records_all. Qed.
+Print Assumptions c10_pass_records_all.
+
+(* a wrapper re-configured by its holder after any history (renders included)
+   renders its kind's output under the options it has now *)
+Theorem c10_retune_last_wins : forall (U O : Type) (dflt : kind -> O) out degraded (ps : list (oop U O)) v u i w o,
+  nth_error (o_heap (orun dflt (oinit v u) ps)) i = Some w ->
+  orender out degraded (ostep dflt (orun dflt (oinit v u) ps) (PTune i o)) i
+  = Some (out (w_kind w) o (st_view (o_tab (orun dflt (oinit v u) ps)))).
+Proof. exact retune_last_wins. Qed.
+Print Assumptions c10_retune_last_wins.
+
+(* and agrees with a brand-new wrapper of its kind given the same options *)
+Theorem c10_retuned_agrees_with_new : forall (U O : Type) (dflt : kind -> O) out degraded (ps : list (oop U O)) v u i w o,
+  let s := orun dflt (oinit v u) ps in
+  nth_error (o_heap s) i = Some w ->
+  orender out degraded (ostep dflt s (PTune i o)) i
+  = orender out degraded (ostep dflt (ostep dflt s (PWrap (w_kind w))) (PTune (length (o_heap s)) o)) (length (o_heap s)).
+Proof. exact retuned_agrees_with_new. Qed.
+Print Assumptions c10_retuned_agrees_with_new.
+
+(* non-vacuity, observers: an observer that reports on every view is registered
+   on the core table BEFORE the text wrapper's measuring callback, a second one
+   after it: the text render is the format's output (not the degraded one), and
+   one pass records both reports *)
+Example c10_example_observers :
+  let v1 := mkView 1 None [] [None; None] [None; None] in
+  let ops : list (xop unit nat) := [XObserve (fun _ => Some 7); XBuild v1 tt; XWrap KText; XObserve (fun v => Some (v_ncols v))] in
+  let s := xrun (xinit (mkView 0 None [] [None] [None]) tt) ops in
+  xrender (fun _ _ => Ok [1%N]) (fun _ _ _ => Ok [2%N]) s KText = Ok [1%N] /\
+  x_errs (xinvoke s) = [7; 1].
+Proof. vm_compute. split; reflexivity. Qed.
+
+(* non-vacuity, option history: a text wrapper renders, is given options 5,
+   renders, is given options 9: it shows 9, as a new wrapper given 9 does *)
+Example c10_example_retune :
+  let v0 := mkView 0 None [] [None] [None] in
+  let ps : list (oop unit nat) := [PWrap KText; PRender 0; PTune 0 5; PRender 0; PTune 0 9; PWrap KText; PTune 1 9] in
+  let outf := fun (k : kind) (o : nat) (v : view) => Ok [N.of_nat o] in
+  let s := orun (fun _ => 0) (oinit v0 tt) ps in
+  orender outf (fun _ _ _ _ => Err) s 0 = Some (Ok [9%N]) /\
+  orender outf (fun _ _ _ _ => Err) s 1 = Some (Ok [9%N]).
+Proof. vm_compute. split; reflexivity. Qed.
